@@ -8,6 +8,7 @@ import Otel.C15.ErrLP
 import Otel.C15.ErrMP
 import Otel.C15.Lag
 import Otel.C15.Reent
+import Otel.C15.Tick
 open Otel Otel.Wire Otel.C15
 
 /-! Driver of C15. Line kinds: see harness/bb/c15life/c15_test.go (header). -/
@@ -819,12 +820,34 @@ def concLine (kind kindsS : String) (opToks obsToks : List String) : Option Verd
            (if mid.any (·.startsWith "unr") then ",conc-unr" else ""),
          model := "-" }
 
+/-- `gmp <gen> <ctx> <via> => <exportsAfterShutdown> <exporterShutdowns> <returnedWhileParked> <result>` (leg `tick`): a timer-tick
+collection parked in the run goroutine while Shutdown is called. Model = `Tick.run` on the forced schedule; oracle:
+no Export after the exporter's Shutdown, exactly one exporter Shutdown, Shutdown did not return while the collection
+was in flight (the conclusions of PropsTick). The result class is recorded, not judged. -/
+def gmpLine (ctxS : String) (obs : List String) : Option Verdict := do
+  let c ← match ctxS with
+    | "b" => some false | "c" => some true | "x" => some true | _ => none
+  let [aS, sS, eS, res] := obs | none
+  if res == "hang" || res == "notick" then
+    return { agree := false, spec := "FAIL:" ++ res, nontrivial := true, branches := res, model := "-" }
+  let a ← aS.toNat?
+  let sh ← sS.toNat?
+  let e ← eS.toNat?
+  let m ← Tick.run c {} Tick.forced
+  let model := s!"{m.exportsAfterShut} {m.expShut} {if m.returnedWhileCollecting then 1 else 0}"
+  let fails := (if a != 0 then ["export-after-exporter-shutdown"] else []) ++
+    (if sh != 1 then ["exporter-shutdown-not-once"] else []) ++
+    (if e != 0 then ["shutdown-returned-before-run-loop-exited"] else [])
+  pure { agree := model == s!"{a} {sh} {e}", spec := if fails.isEmpty then "ok" else "FAIL:" ++ ",".intercalate fails,
+         nontrivial := true, branches := s!"tick-{ctxS}", model := model }
+
 def stepLine (_ : Unit) (toks : List String) : Unit × Option Verdict :=
   let (inp, obs) := splitObs toks
   match inp with
   | "tp" :: _ :: kinds :: _ :: "|" :: ops => ((), tpLine kinds ops obs)
   | "gtp" :: _ :: kinds :: "|" :: ops => ((), gtpLine kinds ops obs)
   | "ptp" :: _ :: kinds :: "|" :: ops => ((), ptpLine kinds ops obs)
+  | ["gmp", _, ctxS, _] => ((), gmpLine ctxS obs)
   | "etp" :: _ :: kinds :: "|" :: ops => ((), etpLine kinds ops obs)
   | "elp" :: _ :: kinds :: "|" :: ops => ((), elpLine kinds ops obs)
   | "emp" :: _ :: kinds :: "|" :: ops => ((), empLine kinds ops obs)
